@@ -704,6 +704,24 @@ def bom_cases(rng, n, prefix="bom"):
     return cases, meta
 
 
+def long_token_cases(prefix="lt"):
+    """one long text token and one long tag token made of N copies of a character of each UTF-8 length (block-wise
+    character counting: 85/86, 127/128, 170/171, 255/256, 340/341, 510/511 characters)"""
+    cases, meta = [], {}
+    k = 0
+    for ch in ("a", "\u00e9", "\u3042", "\U0001f600", "\uffff"):
+        for n in (85, 86, 127, 128, 170, 171, 200, 255, 256, 257, 340, 341, 510, 511, 600):
+            for ds, de in (("<", ">"), ("<!-- <", "> -->")):
+                if n > 257 and ds != "<":
+                    continue
+                src = f"x{ds}t{de}" + ch * n + f"{ds}/t{de}y{ds}t name='" + ch * n + f"'{de}z"
+                cid = f"{prefix}{k}"
+                k += 1
+                cases.append(G.dcase(cid, ds, de, src, G.Cfg()))
+                meta[cid] = {"stream": "long-tokens"}
+    return cases, meta
+
+
 def many_comment_cases(rng, n, prefix="mc"):
     """documents with many ordinary comments in the tool's delimiters (tags that are never closed, or
     that do not parse to elements) in front of ready / pending elements"""
@@ -890,7 +908,9 @@ def gen_front(rng, tier, pairs=None, exh_len=None):
     pairs = pairs or [("<", ">"), ("/* <", "> */"), ("aab", "bba"), ("|", "】】"), ("《", "》"), ("<!-- <", "> -->"), ("// --", "-- //"), ("<<", ">>"),
                       ("<", "-->"), ("[", "]]]]"), ("|", "|"), ("{{{", "}"),
                       # delimiters made of white space only (tags that run to the end of the line, tab-separated fields)
-                      ("#:", "\n"), ("\t", "\t"), ("\n\n", " ")]
+                      ("#:", "\n"), ("\t", "\t"), ("\n\n", " "),
+                      # a start delimiter that overlaps itself and shares its characters with the end delimiter
+                      ("##", "#"), ("%%", "%%"), ("--", "--")]
     ex = exhaustive_cases(rng, "x", pairs[:4] if tier == "quick" else pairs, L)
     # strings over the delimiter characters plus one filler: deeper
     ex2c, ex2m = [], {}
@@ -919,10 +939,12 @@ def gen_front(rng, tier, pairs=None, exh_len=None):
         s = "".join(rng.choice(pool) for _ in range(rng.randint(1, 14)))
         bc.append(G.dcase(f"u{i}", ds, de, s, G.Cfg()))
         bm[f"u{i}"] = {"stream": "unicode-boundaries", "mutated": True}
-    return merge(corpus_cases(), ex, (ex2c, ex2m), docs, (bc, bm), chrono_limit_docs(), weird_tag_cases(rng, 400 if tier == "quick" else 6000))
+    return merge(corpus_cases(), ex, (ex2c, ex2m), docs, (bc, bm), chrono_limit_docs(), weird_tag_cases(rng, 400 if tier == "quick" else 6000),
+                 long_token_cases())
 
 
-BAD_OFFSETS = ["+09:00:00", "+0900 JST", "+00:00Z", "-05:00h", "+09:00 ", "+0000+0000", "", "UTC", "+9", "Z", "+24:00", "+09:60"]
+BAD_OFFSETS = ["+09:00:00", "+0900 JST", "+00:00Z", "-05:00h", "+09:00 ", "+0000+0000", "", "UTC", "+9", "Z", "+24:00", "+09:60",
+               "+", "-0", "\u3042", "+0\u3042:00", "\u00e9", "+\u00e90:00", "\U0001f600"]
 
 
 def bad_offset_docs(rng, n, prefix="bo"):
@@ -1124,6 +1146,12 @@ def gen_c05(rng, tier):
                 "+09:00:00", "+0900 JST", "+00:00Z", "-05:00h", "+09:00 ", "+00:00\n", "+0000+0000"):
         for now in (G.NOW, 4102444800 * 2):
             add("2000-01-01 00:00:00", off, now, False, f"malformed offset {off!r}")
+    # the offset spelled with U+2212 MINUS SIGN, or with white space in front of the sign, is read like the plain one
+    for om, spell in ((-540, "\u221209:00"), (-540, "\u22120900"), (540, " +09:00"), (-330, "\t-0530"), (0, " +00:00"), (-1, "\u221200:01")):
+        for base in (G.NOW, 1709251200):
+            to = G.render_to(base + om * 60)
+            for dn in (-1, 0, 1):
+                add(to, spell, base + dn, dn >= 0, f"offset spelled {spell!r}")
     # a seconds field of 60 (accepted as leap-second notation in any minute) denotes the second after :59: the element
     # is ready from that second on and not at :59 itself
     for base59 in (946684799, 1483228799, 1710041459, 951827759):     # 1999-12-31 23:59:59, 2016-12-31 23:59:59, ...
@@ -2554,7 +2582,8 @@ RULE_DOC = ("corpus (fixtures + recorded witnesses) first, then bounded-exhausti
 
 PROPS = {}
 _P = {
-    "C01": mk(lambda rng, t: merge(gen_docs(rng, t, 2500, 40000, p_mut=0.5, safe=False), gen_front(rng, "quick"), big_line_number_cases(), wide_column_cases()),
+    "C01": mk(lambda rng, t: merge(gen_docs(rng, t, 2500, 40000, p_mut=0.5, safe=False), gen_front(rng, "quick"), big_line_number_cases(), wide_column_cases(),
+                                   bad_offset_docs(rng, 150 if t == "quick" else 2500, "bof")),
               ALL_DOC_STAGES, oracle_c01, "panic-freedom: every stage of every case compared incl. the PANIC outcome (dev profile, overflow checks on)", RULE_DOC,
               nontrivial_tok),
     "C02": mk(lambda rng, t: gen_docs(rng, t, p_mut=0.3), DOC_STAGES_CLEAN, oracle_c02, "no over-removal", RULE_DOC),
